@@ -55,7 +55,11 @@ using namespace cds_utils;
 #include "utils/LogSequence.h"
 #include "utils/VByte.h"
 
+#if defined(LIBCSD_VERIF) && defined(LIBCSD_VERIF_MEMALLOC)
+#define MEMALLOC LIBCSD_VERIF_MEMALLOC
+#else
 #define MEMALLOC 32768
+#endif
 
 class StringDictionaryPFC : public StringDictionary {
 public:
